@@ -11,6 +11,9 @@ VEC_MAKERS = ('std::boxed::box_assume_init_into_vec_unsafe', 'std::slice::<impl 
 THROUGH = set(TRANSPARENT_CALLS) | {'std::clone::Clone::clone'}
 
 
+FN_CONSTS = {}      # 'fn:<uid>' -> the constant operand (to specialise a handler on the fn it captured)
+
+
 def _const_val(body, op):
     """python value of a constant operand (str / int / enum unit variant name) or None"""
     o = single_origin(trace_operand(body, op, through_calls=THROUGH))
@@ -22,6 +25,9 @@ def _const_val(body, op):
             return s
         if 'int' in o.data:
             return o.data['int']
+        if o.data.get('fn'):
+            FN_CONSTS['fn:' + o.data['fn']['uid']] = o.data
+            return 'fn:' + o.data['fn']['uid']      # a fn item (possibly coerced to a fn pointer)
         return None
     if o.kind == 'agg' and not o.proj and o.data[2]['agg'] == 'adt' and not o.data[2]['ops']:
         return o.data[2]['variant']
@@ -120,6 +126,29 @@ def handler_closure(prog, body, op):
     return None
 
 
+def handler_factory(prog, body, op):
+    """handler built by a local factory `H(x, ..)` that returns Arc::new(closure capturing its parameters):
+    (closure uid, {upvar index: operand of the factory call}) or None"""
+    o = single_origin(trace_operand(body, op, through_calls=THROUGH))
+    if o is None or o.kind != 'callres' or o.proj or o.data.ruid is None or o.data.ruid not in prog.by_id:
+        return None
+    c = o.data
+    H = prog.by_id[c.ruid]
+    ro = single_origin(trace_local(H, 0, (), through_calls=THROUGH))
+    if ro is None or ro.kind != 'callres' or not (ro.data.callee or '').endswith('::new') or not ro.data.args:
+        return None
+    a = single_origin(trace_operand(H, ro.data.args[0], through_calls=THROUGH))
+    if a is None or a.kind != 'agg' or a.data[2]['agg'] != 'closure':
+        return None
+    bind = {}
+    for i, x in enumerate(a.data[2]['ops']):
+        xo = single_origin(trace_operand(H, x, through_calls=THROUGH))
+        if xo is None or xo.kind != 'param' or xo.proj or xo.data - 1 >= len(c.args):
+            return None
+        bind[i] = c.args[xo.data - 1]
+    return a.data[2]['closure'], bind
+
+
 def _desc_of(W, op, descs, depth=0):
     """descriptor of an operand inside family member W, given descriptors of W's parameters 2..n"""
     if depth > 4:
@@ -179,7 +208,16 @@ def builtin_rows(prog, rm):
                     descs.append(av)
                     continue
                 clo = handler_closure(prog, fb, a)
-                descs.append(('handler', clo) if clo else ('?',))
+                if clo:
+                    descs.append(('handler', clo, {}))
+                    continue
+                hf = handler_factory(prog, fb, a)
+                if hf is not None:
+                    bd = {i: arg_values(fb, x) for i, x in hf[1].items()}
+                    if all(v is not None for v in bd.values()):
+                        descs.append(('handler', hf[0], bd))
+                        continue
+                descs.append(('?',))
             res = descend(prog, rm, w, descs)
             if res is None:
                 problems.append((fb, c, 'cannot follow the registration at %s down to the map insert' % c.where()))
@@ -195,9 +233,14 @@ def builtin_rows(prog, rm):
                 if f[0] == 'elem':
                     n = len(f[3]) if n is None else n
             clo = None
+            bind = {}
             for f in fields:
                 if f[0] == 'handler':
                     clo = f[1]
+                    bind = f[2] if len(f) > 2 else {}
+                    for bv in bind.values():
+                        if bv[0] == 'elem':
+                            n = len(bv[3]) if n is None else n
             def val_of(f, k):
                 if f[0] == 'const':
                     return f[1]
@@ -208,7 +251,7 @@ def builtin_rows(prog, rm):
             for k in range(n or 1):
                 rows.append({'writer': w.name, 'filler': fb.name, 'name': val_of(key, k),
                              'args': [val_of(f, k) for f in fields if f[0] != 'handler'],
-                             'closure': clo, 'where': c.where(), 'arity': len(c.args)})
+                             'closure': clo, 'bind': {i: val_of(bv, k) for i, bv in bind.items()}, 'where': c.where(), 'arity': len(c.args)})
     return rows, problems
 
 
